@@ -118,8 +118,11 @@ def generate(rng):
         scn['pending'] = ''
         scn['pre'] = {'n': rng.choice([3, 40, 200, 1500, 2500]), 'kind': rng.choice(['exact', 'window']),
                       'w': rng.choice([1, 5, 50])}
-        if scn['enc'] and scn['out_kind'] != 'digits':
-            scn['out_kind'] = 'digits'
+        if scn['enc'] and scn['out_kind'] == 'bytes':
+            scn['out_kind'] = rng.choice(['digits', 'utf8'])
+        if scn['enc'] and scn['out_kind'] == 'utf8':
+            scn['pre']['n'] = rng.choice([3, 5, 6, 7, 8, 9, 40, 41, 42, 43, 1500, 1501, 1502])   # may end inside a character
+            scn['child_echo'] = False
         scn['after_expect'] = rng.random() < 0.7
     if esc is not None and rng.random() < 0.04:
         # an escape character that has no Latin-1 byte: interact() cannot look for it and raises; whatever it does, the
@@ -193,7 +196,13 @@ def run(scn, prop=None):
             total = 0
             pre = scn.get('pre')
             if pre:
-                data = (('%06d|' % 0) * (int(pre['n']) // 7 + 1))[:int(pre['n'])].replace('0', 'P').encode()
+                if scn.get('enc') and scn.get('out_kind') == 'utf8':
+                    # multi-byte text that may stop inside a character: the stream goes on where it stopped
+                    unit_ = u'a\xe9\u20ac\U0001f600\n\x1d'.encode('utf-8')
+                    data = (unit_ * (int(pre['n']) // len(unit_) + 1))[:int(pre['n'])]
+                    total = int(pre['n'])
+                else:
+                    data = (('%06d|' % 0) * (int(pre['n']) // 7 + 1))[:int(pre['n'])].replace('0', 'P').encode()
                 try:
                     yield ('write', slave, data)
                 except OSError:
@@ -211,7 +220,7 @@ def run(scn, prop=None):
                         data = bytes((total + i * 37 + (i >> 8) * 11) & 0xff for i in range(n))
                     elif ok == 'utf8':
                         unit = u'a\xe9\u20ac\U0001f600\n\x1d'.encode('utf-8')
-                        data = (unit * (n // len(unit) + 1))[total % len(unit):][:n]
+                        data = (unit * (n // len(unit) + 2))[total % len(unit):][:n]
                     else:
                         data = (('%06d|' % total) * (n // 7 + 1))[:n].encode()
                     total += n
@@ -285,8 +294,8 @@ def run(scn, prop=None):
         if pre:
             if pending:
                 raise HarnessError('pre and pending exclude each other')
-            if enc and scn.get('out_kind', 'digits') != 'digits':
-                raise HarnessError('pre in unicode mode needs ASCII child output')
+            if enc and scn.get('out_kind', 'digits') == 'bytes':
+                raise HarnessError('pre in unicode mode needs child output that is text in that encoding')
             never = u'\x00NEVER\x00' if enc else b'\x00NEVER\x00'
             try:
                 if pre.get('kind') == 'window':
@@ -297,7 +306,12 @@ def run(scn, prop=None):
                 pass
             except EOF:
                 pre_eof = True
-            pre_raw = b''.join((c.encode(enc) if enc else c) for c in child.chunks)
+            # kernel truth: the bytes the earlier call took from the terminal (in unicode mode the last of them may be the
+            # beginning of a character that the object's decoder is still holding)
+            pre_raw = bytes(r.pty.out_log)[:len(r.pty.out_log) - len(r.pty.out)]
+            child.chunks_at_entry = list(child.chunks)
+            if enc and len(pre_raw) != len(b''.join(c.encode(enc) for c in child.chunks)):
+                r.w.probe('decoder_holds_part_of_a_character_at_interact_entry')
             if len(pre_raw) > len(child.buffer) and not pre_eof:
                 r.w.probe('search_buffer_trimmed_before_interact')
         ctr = [0]
@@ -406,6 +420,12 @@ def run(scn, prop=None):
                 # a filter sees reads of <= 1000 bytes; '0' -> 'oo' is chunk-independent
                 want_disp = out_f(want_disp)
             want_disp = pend_b + want_disp
+            if pre_raw and pre_eof and enc:
+                # the earlier call ended in EOF while the decoder still held the beginning of a character (a stream that ends
+                # inside a character): whether those orphaned bytes are shown is not fixed by any statement
+                held_ = pre_raw[len(b''.join(c.encode(enc) for c in child.chunks_at_entry)):] if hasattr(child, 'chunks_at_entry') else b''
+                if held_ and disp == held_ + want_disp:
+                    want_disp = disp
             # which way did it end?
             tf = in_f(typed) if 'input_filter' in kwargs else typed
             ebyte = None if esc is None else bytes([esc])
@@ -481,7 +501,14 @@ def run(scn, prop=None):
                     text = st().join(ws)
                     cw_ = child_wrote[len(pre_raw):]       # (what an earlier call read was read before the logs were attached)
                     want = (out_f(cw_) if filt in ('out', 'both') else cw_)[:len(disp) - len(pend_b)]
-                    wantt = want if enc is None else codecs.getincrementaldecoder(enc)('replace').decode(want, False)
+                    if enc is None:
+                        wantt = want
+                    else:
+                        # the log is the text of the stream: a character begun in the last read before the session and finished in
+                        # it belongs to the session's part of the log as that character
+                        dec_ = codecs.getincrementaldecoder(enc)('replace')
+                        head_ = dec_.decode(pre_raw, False) if pre_raw else u''
+                        wantt = dec_.decode(want, False)
                     if text != wantt:
                         V('C11.interact_read', 'logfile_read during interact() differs from what was copied to the display', log=name)
                 if name == 'logfile_send':
@@ -501,6 +528,9 @@ def run(scn, prop=None):
                 # the decoder belongs to the session's output stream as a whole, not to the log: a character whose first
                 # bytes came before the log was attached is completed by the bytes that come after
                 dec_ = codecs.getincrementaldecoder(enc)('replace')
+                if pre_raw and not pre_eof:
+                    # (the beginning of a character read before the session belongs to the stream the log transcribes)
+                    dec_.decode(pre_raw[len(b''.join(c.encode(enc) for c in getattr(child, 'chunks_at_entry', []))):], False)
                 per_call = [dec_.decode(x, False) for x in late['calls']]
                 want_t = u''.join(per_call[late['from']:])
             ws_ = late['log'].writes()
@@ -547,7 +577,7 @@ def run(scn, prop=None):
                 pass        # the echo of arbitrary typed bytes is not text in this encoding: the scenario's doing
             new_ = child.string_type().join(child.chunks[c0_:])
             bef_ = child.before
-            pre_t = pre_raw.decode(enc) if enc else pre_raw
+            pre_t = pre_raw.decode(enc, 'ignore') if enc else pre_raw
             if isinstance(bef_, type(new_)) and bef_ != new_ and not buf_after and bef_.endswith(new_) and \
                     pre_t.endswith(bef_[:len(bef_) - len(new_)]) and len(bef_) > len(new_):
                 V('C15.pending_again', 'after interact() the buffer attribute was empty, yet the next call handed back %d characters '
